@@ -41,6 +41,12 @@
  *   l               ledger: live heap blocks relative to the start of the case -> l=<n>
  * case:  find <flen> <dlen|-1> <n1,n2,...|->   spifconf_find_file on strings of these lengths
  * case:  temp <n>                               spiftool_temp_file n times: mode and uniqueness
+ * case:  tmpf <envk> <dirlen> <tplhex> <len> <cap> <umask> <picks> <nexist> <flags>
+ *        one call of spiftool_temp_file(ftemplate, len): envk D (TMPDIR = the work directory spelled with dirlen characters), M (TMP
+ *        instead), B (both, TMP nonexistent), K (TMPDIR names a directory that does not exist), N (neither: /tmp, real mkstemp,
+ *        the six characters masked); ftemplate is a block of exactly cap bytes holding the template; the process umask; the
+ *        candidates mkstemp tries, the first nexist of which exist already (mode 0644); flags F = fchmod fails
+ *        -> ret=<ok|-1> tpl=<string in ftemplate afterwards, the directory as D+> um=<umask afterwards> mode=<of the descriptor> files=<listing>
  */
 #include "common.h"
 #include <stdint.h>
@@ -727,6 +733,127 @@ static void do_temp(int n, char **t)
     printf("temp fail=%d badmode=%d dup=%d outside=%d", fail, bad_mode, dup, notin);
 }
 
+/* ---- spiftool_temp_file, one call with mkstemp and fchmod under the case's control ----
+ * mkstemp is glibc's algorithm with the case's candidate list in place of the random characters: EINVAL unless the name
+ * ends in XXXXXX, each candidate opened with O_RDWR|O_CREAT|O_EXCL and mode 0600 (the kernel applies the umask), EEXIST
+ * moves on.  Outside a tmpf case both wrappers pass through. */
+int __real_mkstemp(char *tpl);
+int __real_fchmod(int fd, mode_t m);
+static int lv_tmpf_active, lv_tmpf_fchmod_fails, lv_tmpf_npicks;
+static char **lv_tmpf_picks;
+int __wrap_mkstemp(char *tpl)
+{
+    size_t l;
+    int k;
+    if (!lv_tmpf_active) return __real_mkstemp(tpl);
+    l = strlen(tpl);
+    if (l < 6 || strcmp(tpl + l - 6, "XXXXXX")) { errno = EINVAL; return -1; }
+    for (k = 0; k < lv_tmpf_npicks; k++) {
+        int fd;
+        memcpy(tpl + l - 6, lv_tmpf_picks[k], 6);
+        fd = open(tpl, O_RDWR | O_CREAT | O_EXCL, 0600);
+        if (fd >= 0) return fd;
+        if (errno != EEXIST) return -1;
+    }
+    errno = EEXIST;
+    return -1;
+}
+int __wrap_fchmod(int fd, mode_t m)
+{
+    if (lv_tmpf_active && lv_tmpf_fchmod_fails) { errno = EPERM; return -1; }
+    return __real_fchmod(fd, m);
+}
+
+static int lv_cmpstr(const void *a, const void *b) { return strcmp(*(char *const *) a, *(char *const *) b); }
+
+/* tmpf <envk> <dirlen> <tplhex> <len> <cap> <umask-octal> <picks> <nexist> <flags> */
+static void do_tmpf(int n, char **t)
+{
+    const char *envk = t[1];
+    long dirlen = atol(t[2]), len = atol(t[4]), cap = atol(t[5]);
+    mode_t um = (mode_t) strtol(t[6], NULL, 8), um_after, um_saved;
+    int nexist = atoi(t[8]), k, fd, real = !strcmp(envk, "N"), nodir = !strcmp(envk, "K");
+    size_t tl = 0, dl = strlen(lv_dir);
+    unsigned char *tplb = strcmp(t[3], "-") ? lv_unhex(t[3], &tl) : NULL;
+    char *dir = NULL, *buf, *picks = strdup(t[7]);
+    char *pickv[64];
+    int npicks = 0;
+    USE_VAR(n);
+    clean_dir(lv_dir);
+    if (strcmp(picks, "-")) { char *q; for (q = strtok(picks, ","); q && npicks < 64; q = strtok(NULL, ",")) { if (strlen(q) != 6) { printf("HARNESS-ERROR:pick"); return; } pickv[npicks++] = q; } }
+    if (!real) {
+        if ((size_t) dirlen < dl || dirlen > 100000) { printf("HARNESS-ERROR:pad"); return; }
+        dir = (char *) malloc((size_t) dirlen + 1);
+        memcpy(dir, lv_dir, dl);
+        if (nodir) { if ((size_t) dirlen < dl + 2) { printf("HARNESS-ERROR:pad"); return; } dir[dl++] = '/'; dir[dl++] = 'q'; }     /* <work>/q... does not exist */
+        while (dl + 2 <= (size_t) dirlen) { dir[dl++] = '/'; dir[dl++] = '.'; }
+        if (dl < (size_t) dirlen) dir[dl++] = '/';
+        dir[dl] = 0;
+    }
+    unsetenv("TMPDIR"); unsetenv("TMP");
+    if (!strcmp(envk, "D") || !strcmp(envk, "K") || !strcmp(envk, "B")) setenv("TMPDIR", dir, 1);
+    if (!strcmp(envk, "M")) setenv("TMP", dir, 1);
+    if (!strcmp(envk, "B")) setenv("TMP", "/nonexistent-lv", 1);
+    for (k = 0; k < nexist && k < npicks; k++) {       /* candidates that exist already: <dir>/<template><pick>, mode 0644 */
+        char *p = (char *) malloc((size_t) dirlen + tl + 16);
+        int f;
+        sprintf(p, "%s/%.*s%s", dir, (int) tl, tplb ? (char *) tplb : "", pickv[k]);
+        f = open(p, O_WRONLY | O_CREAT | O_EXCL, 0644);
+        if (f < 0) { printf("HARNESS-ERROR:pre-create"); return; }
+        __real_fchmod(f, 0644);
+        close(f);
+        free(p);
+    }
+    if (cap < (long) tl + 1 || len > cap) { printf("HARNESS-ERROR:cap"); return; }
+    buf = (char *) malloc((size_t) cap);               /* exactly cap cells: one byte too many is seen */
+    if (tl) memcpy(buf, tplb, tl);
+    buf[tl] = 0;
+    lv_tmpf_picks = pickv; lv_tmpf_npicks = npicks; lv_tmpf_fchmod_fails = strchr(t[9], 'F') != NULL;
+    lv_tmpf_active = !real;
+    um_saved = umask(um);
+    fd = spiftool_temp_file((spif_charptr_t) buf, (size_t) len);
+    um_after = umask(um_saved);
+    lv_tmpf_active = 0;
+    printf("ret=%s tpl=", fd >= 0 ? "ok" : "-1");
+    {
+        size_t sl = strlen(buf), j;
+        if (real && fd >= 0 && sl >= 6) memset(buf + sl - 6, 'X', 6), unlink(buf), memset(buf + sl - 6, 'X', 6);
+        if (!real && dirlen > 0 && sl >= (size_t) dirlen && !memcmp(buf, dir, (size_t) dirlen)) { printf("D+"); for (j = (size_t) dirlen; j < sl; j++) printf("%02x", (unsigned char) buf[j]); }
+        else if (!real && dirlen > 0 && sl > 0 && sl <= (size_t) dirlen && !memcmp(buf, dir, sl)) printf("d%lu", (unsigned long) sl);
+        else if (!sl) printf("-");
+        else for (j = 0; j < sl; j++) printf("%02x", (unsigned char) buf[j]);
+    }
+    printf(" um=%o mode=", (unsigned) um_after);
+    if (fd >= 0) { struct stat st; if (fstat(fd, &st)) printf("?"); else printf("%o", (unsigned) (st.st_mode & 07777)); } else printf("-");
+    printf(" files=");
+    if (real || nodir) printf("-");
+    else {
+        DIR *d = opendir(lv_dir);
+        struct dirent *e;
+        char *names[256];
+        int nn = 0;
+        while (d && (e = readdir(d)) && nn < 256) if (strcmp(e->d_name, ".") && strcmp(e->d_name, "..")) names[nn++] = strdup(e->d_name);
+        if (d) closedir(d);
+        qsort(names, (size_t) nn, sizeof(char *), lv_cmpstr);
+        if (!nn) printf("-");
+        for (k = 0; k < nn; k++) {
+            struct stat st;
+            char p[8192];
+            size_t j;
+            snprintf(p, sizeof(p), "%s/%s", lv_dir, names[k]);
+            if (k) printf(",");
+            for (j = 0; names[k][j]; j++) printf("%02x", (unsigned char) names[k][j]);
+            if (lstat(p, &st)) printf(":?"); else printf(":%o", (unsigned) (st.st_mode & 07777));
+            free(names[k]);
+        }
+    }
+    if (fd >= 0) close(fd);
+    clean_dir(lv_dir);
+    unsetenv("TMP");
+    setenv("TMPDIR", lv_dir, 1);
+    free(buf); free(dir); free(picks); free(tplb);
+}
+
 static char *lv_casefile;
 static void run_case(int n, char **t)
 {
@@ -734,6 +861,7 @@ static void run_case(int n, char **t)
     if (n >= 1 && !strcmp(t[0], "hist")) do_hist(n, t);
     else if (n == 4 && !strcmp(t[0], "find")) do_find(n, t);
     else if (n == 2 && !strcmp(t[0], "temp")) do_temp(n, t);
+    else if (n == 10 && !strcmp(t[0], "tmpf")) do_tmpf(n, t);
     else printf("HARNESS-ERROR:bad-case");
 }
 
